@@ -44,6 +44,7 @@ type Request struct {
 	priority     float64
 	timestamp    time.Time
 	doneCh       chan struct{}
+	abandoned    bool // the waiter gave up (TTL); guarded by the queue's mutex
 	processMutex sync.Mutex
 	isProcessed  bool
 }
@@ -53,7 +54,7 @@ func NewRequest(id string, priority float64, clock clock.Clock) *Request {
 		ID:           id,
 		priority:     priority,
 		timestamp:    clock.Now(),
-		doneCh:       make(chan struct{}),
+		doneCh:       make(chan struct{}, 1),
 		processMutex: sync.Mutex{},
 		isProcessed:  false,
 	}
